@@ -102,7 +102,7 @@ Theorem C11_source_frames :
   Forall (fun n => lookup n src_frames = Some true)
     ["atw_reserves_then_matches"; "atw_error_read_once"; "tatw_reserves_then_matches";
      "tatw_error_read_once"; "try_fill_releases_on_error"]%string.
-Proof. repeat constructor. Qed.
+Proof. repeat (constructor; [vm_compute; reflexivity|]). constructor. Qed.
 
 Print Assumptions C11_source_entry.
 Print Assumptions C11_source_exit.
